@@ -450,6 +450,45 @@ class FaultsProj:
         return proj(a), proj(b), interesting
 
 
+class C01CtlProj(ControlProjector):
+    """sequential histories: whether each deploy / rollout deploy is accepted or refused as unhealthy (for every health-check
+    path, option set and target list incl. repeated targets), and who answers requests afterwards"""
+    def step(self, kind, op, a, b):
+        self.track(kind, op, a, b)
+        if kind in ('deploy', 'rollout-deploy'):
+            return a, b, 'healthy=0' in op
+        if kind == 'req':
+            return req_routing(a), req_routing(b), False
+        return None
+
+
+class C09CtlProj(ControlProjector):
+    """sequential histories with targets that stop and resume answering probes (before and after restarts): which target
+    answers each request, and 503 when none is healthy"""
+    def __init__(self):
+        super().__init__()
+        self.sick = False
+
+    def step(self, kind, op, a, b):
+        self.track(kind, op, a, b)
+        if kind in ('sicken', 'heal'):
+            self.sick = kind == 'sicken'
+            return a, b, True
+        if kind == 'req':
+            return a, b, self.sick
+        return None
+
+
+class C14CtlProj(ControlProjector):
+    """the buffering settings in force (as persisted after every command), across redeploys and restarts"""
+    def step(self, kind, op, a, b):
+        self.track(kind, op, a, b)
+        if kind == 'snapshot':
+            f = lambda l: _re2.findall(r'name=(\S+)|(bufreq=\S+ bufresp=\S+ maxmem=\S+ maxreq=\S+ maxresp=\S+)', l)
+            return f(a), f(b), self.after_restart
+        return None
+
+
 class C13FaultsProj(FaultsProj):
     """of the faults engine, only what the client receives for targets that answer completely (with or without a
     preceding informational response): status, completeness, body length, number of 1xx responses passed on"""
@@ -579,7 +618,7 @@ PROPS = {
                      "raw paths containing bytes outside Go's validEncoded set are re-encoded from the decoded path (scope note, tested)",
                      "X-Request-Start value and UUID freshness are checked for format only"],
     ),
-    'C01': dict(engines=[proxy(C01Proj)], assumptions=PROXY_ASSUME,
+    'C01': dict(engines=[proxy(C01Proj), control(C01CtlProj, 100, 4000)], assumptions=PROXY_ASSUME,
                 rule=RULE_PROXY + "Compared for C01: deploy results and which deploy generation's targets receive client requests. "
                      "Non-trivial = a deploy fails its health wait, or a request reaches a target."),
     'C02': dict(engines=[proxy(C02Proj), control(C02CtlProj, 120, 4000)], assumptions=PROXY_ASSUME,
@@ -590,7 +629,7 @@ PROPS = {
     'C07': dict(engines=[proxy(C07Proj)], assumptions=PROXY_ASSUME,
                 rule=RULE_PROXY + "Compared for C07: how and when (virtual ns) each request ends, gate command results. Non-trivial = a request "
                      "ends on resume, stop or a timer."),
-    'C09': dict(engines=[proxy(C09Proj)], assumptions=PROXY_ASSUME,
+    'C09': dict(engines=[proxy(C09Proj), control(C09CtlProj, 100, 4000)], assumptions=PROXY_ASSUME,
                 rule=RULE_PROXY + "Compared for C09: exactly which target serves each request and every probe sent. Non-trivial = a request is served by a target."),
     'C18': dict(
         engines=[proxy(C18Proj), control(C18CtlProj, 120, 4000)], extra=_soak_extra,
@@ -627,8 +666,10 @@ PROPS = {
                      "the harness goroutine order for `overlap` is forced by parking at the tag-guarded snap.* hooks"],
     ),
     'C14': dict(
-        engines=[engine('buffer', lambda: AllProj(lambda k, op, b: ('spill=1' in b) or ('tl' in b) or k != 'buf'), 60, 3000)],
-        rule="engine buffer: (1) exhaustive small scope on every run - every buffer-memory 0..5 x max-bytes 0..6 x every composition of every "
+        engines=[engine('buffer', lambda: AllProj(lambda k, op, b: ('spill=1' in b) or ('tl' in b) or k != 'buf'), 60, 3000),
+                 control(C14CtlProj, 80, 3000)],
+        rule="engine control: the buffering flags and limits of every service as persisted after every command of random histories incl. "
+             "restarts (limits 0, small and large). engine buffer: (1) exhaustive small scope on every run - every buffer-memory 0..5 x max-bytes 0..6 x every composition of every "
              "total 0..6 into write chunks (0..8 x 0..9 x totals 0..9 in the thorough tier) against the real Buffer: per-write result, overflow "
              "flag, bytes held in memory, spill file created, delivered bytes, spill removed on Close (twice); (2) request buffering through a "
              "real Target to an in-memory target with chunked bodies around the limits; (3) the response buffering middleware under scripted "
